@@ -304,7 +304,7 @@ def main(c):
         st = gbexec.run(c, drv, ["iso", "norton", "plastic", "ortho"], c.pick(2, 12))
         c.notes.append("EXECUTION stage (not a proof): %d paths / calls of the generated extern \"C\" entry points (C44IsoElastic, C44Norton, C44Plastic, "
                        "C44OrthoElastic in Tridimensional, PlaneStrain, GeneralisedPlaneStrain, Axisymmetrical, PlaneStress), %d comparisons with independent "
-                       "Python statements, %d steps with plastic flow; worst observed difference / tolerance per class: %s" % (
+                       "Python statements, %d steps with plastic flow; worst difference / tolerance among the passing comparisons, per class: %s" % (
                            st["paths"], st["comparisons"], st["plastic_steps"], {k: float("%.2g" % v) for k, v in st["worst_over_tolerance"].items()}))
     except (RuntimeError, AssertionError, IndexError, ValueError) as e:
         c.report("exec:driver", "execution driver failed or printed something unexpected: %s" % (str(e)[-600:],), {"error": str(e)[-3000:]}, False)
